@@ -37,10 +37,15 @@ func init() {
 		Patterns: []string{"./sql/rowexec"},
 		Explanation: "Write-dominance in the DML iterators (types of sql/rowexec that implement sql.RowIter and edit rows through editors held in their fields). Decided: (V) the validators are discovered by shape and their shape is checked — a check-constraint evaluation is a range loop over a sql.CheckConstraints value that calls sql.EvaluateCondition on the row, returns its error, and leaves (returns a non-nil error / never reaches the store) when sql.IsFalse(result); a nullability validation is a function with a branch on `!col.Nullable && row[i] == nil` that returns a non-nil error; " +
 			"(D) every call that stores a row (Insert(ctx,row) / Update(ctx,old,new) on a field-held editor, incl. REPLACE and ON DUPLICATE KEY UPDATE) is dominated on every CFG path from the function entry by a check evaluation and by a nullability validation of the very variable that is stored (re-assignments in between must derive from the variable itself), and the store is unreachable while the validator's error may be non-nil; " +
-			"(W) every composite literal of such an iterator sets its CheckConstraints field and the schema field that the nullability validator reads.",
-		NotCovered: "that the evaluated checks / defaults are the right expressions (analyzer), generated-column recomputation, rows written by DDL rewrites, foreign-key cascades and full-text side tables, the backend's own type checks",
-		Technique:  "CFG dominance with value identity of the stored row variable + validator summaries discovered by shape (one call level) + abstract error state",
-		Run:        func(c *Ctx) { runC19(c, c19Repo) },
+			"(W) every composite literal of such an iterator sets its CheckConstraints field and the schema field that the nullability validator reads. " +
+			"Recomputation of generated columns after the user's assignments on every UPDATE-like path (UPDATE, UPDATE … JOIN, INSERT … ON DUPLICATE KEY UPDATE), functions discovered by shape: " +
+			"(G1) in the dependent-expression builder of sql/planbuilder (the function that ranges over a sql.Schema, reads Column.Generated and appends expression.NewSetField values to its []sql.Expression parameter) every path through the column loop with col.Generated != nil appends SetField(col, <expression computed from col.Generated>) — evaluated by a case split over (Generated, OnUpdate, assigned) with three-valued conditions, so no guard over the assignment list (or any other unknown condition) may skip it; the sibling ON UPDATE arm appends exactly when the column is not assigned by the statement; the column loop is reached unconditionally (guards may read only the ranged schema); the `assigned` predicate returns true exactly on paths that found an assignment whose column name equals col.Name; " +
+			"(G2) the builder only ever extends its assignment slice with append(slice, expr) and returns it (derived expressions come after the user's assignments); plan.UpdateExprs values are built only by plan.NewUpdateExprs, whose every call takes the builder's result and len(assignments) as split index, the split index is never written afterwards, the explicit/derived accessors return exprs[:n] and exprs[n:] and HasDerivedUpdates is len(exprs) > n; " +
+			"(G3) in the executors (functions of sql/rowexec that consume the explicit or derived accessor) each half is applied by a loop — inline or one call level down — in which every iteration evaluates its expression over the accumulator row and replaces the accumulator by the result before the next expression or the loop exit, a value that replaces a failed evaluation (IGNORE) is computed from the accumulator, the derived half is dominated by the explicit half and continues from its result, and every row that is stored or returned afterwards derives from the accumulator as left by the last application (no stale view); " +
+			"(G4) after the explicit half, on every non-error path with HasDerivedUpdates() true and the change test false-for-same, the derived half is applied before any row is stored/returned, and the change test (sql.Row.Equals) compares the row before the explicit half with the row after it.",
+		NotCovered: "that the evaluated checks / defaults / generated expressions are the right expressions (analyzer, column resolution), that omitted columns of an INSERT get their default (insert source projection), what SetField.Eval and GetField indexes do, analyzer rewrites of the expression list (positional WithExpressions in fix_exec_indexes keeps the split by length only), triggers that assign NEW.col, rows written by DDL rewrites, foreign-key cascades (own GeneratedProjections) and full-text side tables, the backend's own type checks; a value computed by a call from col.Generated is taken to be non-nil exactly when col.Generated is",
+		Technique:  "CFG dominance with value identity of the stored row variable + validator summaries discovered by shape (one call level) + abstract error state; path enumeration of the builder's column loop under a case split with Kleene evaluation of branch conditions; who-may-construct/write over the update-expression container; accumulator chaining and stale-view dataflow (fresh/stale bit per local view) in the executors",
+		Run:        func(c *Ctx) { runC19(c, c19Repo); runC19G(c, c19gRepo) },
 		Fixture: func(c *Ctx, fx *Prog) {
 			p := c19Params{sqlRel: "testdata/c19/sql", ocIface: "EditOpenerCloser", iterIface: "RowIter", execPkgs: []string{"testdata/c19/exec"}, floors: map[string]int{}}
 			expectFixture(c, fx, "c19: stores that skip validation must be reported", []string{
@@ -51,8 +56,9 @@ func init() {
 				"C19-V:writer.softChecks/checks-shape",
 				"C19-W:writer/construct@NewBadWriter/checks",
 			}, func(fc *Ctx) { runC19(fc, p) })
+			c19gFixture(c, fx)
 		},
-		FixturePkgs: []string{"./testdata/c19/sql", "./testdata/c19/exec"},
+		FixturePkgs: []string{"./testdata/c19/sql", "./testdata/c19/exec", "./testdata/c19/expr", "./testdata/c19/plan", "./testdata/c19/build", "./testdata/c19/gexec"},
 	})
 }
 
